@@ -19,6 +19,7 @@ for d in /verif/seeded/$glob/; do
   case "$name" in C10-r2-m3) id=C14;; esac
   git -C $MX/repo checkout -q -- . ; git -C $MX/repo clean -fdq -e target -e Cargo.lock
   git -C $MX/repo apply "$d/patch.diff" 2>/dev/null || { echo "| $name | patch does not apply |" >> $out.tmp; continue; }
+  touch $MX/verif/sim/build.rs
   row="| $name | $id |"
   for s in $seeds; do
     o=$(cd $MX/verif && VERIF_SEED=$s VERIF_DIR=$MX/verif ./check $id quick 2>&1); c=$?
